@@ -102,8 +102,14 @@ fn scenario(w: &mut World, ctx: &RunCtx, states: &mut Vec<u64>) -> Result<(), Vi
     if hairpin {
         w.count("c02_hairpin_self_dials");
     }
+    // Ethernet overlays: the receiver's dissector accepts any 14 bytes, so whatever comes out of the envelope is
+    // written - on IP overlays a mangled payload would be dropped by the dissector instead
+    let tap = w.ch.chance("tap_nodes", 300);
+    if tap {
+        w.count("c02_tap_meshes");
+    }
     for i in 0..n {
-        let mut c = mesh::tun_node(i);
+        let mut c = if tap { mesh::tap_node(i) } else { mesh::tun_node(i) };
         c.key = k;
         c.algorithms = w.ch.pick("ciphers", &CIPHER_CFGS).iter().map(|s| s.to_string()).collect();
         c.tick_phase_ms = w.ch.choose("tick_phase", 1000) as u64;
@@ -170,6 +176,13 @@ fn scenario(w: &mut World, ctx: &RunCtx, states: &mut Vec<u64>) -> Result<(), Vi
     let mut body_rng = Rng::new(w.ch.seed32("body_seed") as u64);
     let mut counter = 0u32;
     let ops = 10 + w.ch.choose("ops", 50);
+    // send errors (EAGAIN, ENETUNREACH, EPERM, EINTR, short write) while frames are being sealed and sent: a frame may
+    // be lost, but whatever is delivered is still exactly what was read
+    if w.ch.chance("send_errors", 250) {
+        w.net.enabled = true;
+        w.net.send_fault_pm = *w.ch.pick("send_error_pm", &[100u32, 400]);
+        w.count("c02_runs_with_send_errors");
+    }
     for op in 0..ops {
         let (a, b) = *w.ch.pick("pair", &connected);
         // ---- a marked frame of a chosen length
@@ -187,7 +200,7 @@ fn scenario(w: &mut World, ctx: &RunCtx, states: &mut Vec<u64>) -> Result<(), Vi
         let mut body = m.to_vec();
         // readable filler: a cleartext leak would be visible in the scan as well
         body.extend((0..extra).map(|i| b"cleartext-payload-"[i % 18]));
-        let f = mesh::ipv4_packet(mesh::tun_ip(a), mesh::tun_ip(b), &body);
+        let f = if tap { mesh::eth_frame(mesh::mac(b), mesh::mac(a), &[], &body) } else { mesh::ipv4_packet(mesh::tun_ip(a), mesh::tun_ip(b), &body) };
         s.frames_sent.insert(counter, (a, b, f.clone()));
         let first_wire = w.wire.len();
         let at = w.now_ms + 1 + w.ch.choose("gap_ms", 40) as u64;
@@ -206,7 +219,7 @@ fn scenario(w: &mut World, ctx: &RunCtx, states: &mut Vec<u64>) -> Result<(), Vi
         if hairpin && w.ch.chance("packet_to_own_address", 300) {
             counter += 1;
             let mo = mesh::marker(w, counter);
-            let f = mesh::ipv4_packet(mesh::tun_ip(n - 1), mesh::tun_ip(n - 1), &mo);
+            let f = if tap { mesh::eth_frame(mesh::mac(n - 1), mesh::mac(n - 1), &[], &mo) } else { mesh::ipv4_packet(mesh::tun_ip(n - 1), mesh::tun_ip(n - 1), &mo) };
             let at = w.now_ms + 1;
             w.schedule_frame(at, n - 1, f);
             w.count("c02_packets_to_own_address");
@@ -269,9 +282,17 @@ fn scenario(w: &mut World, ctx: &RunCtx, states: &mut Vec<u64>) -> Result<(), Vi
                 }
             };
             let delay = w.ch.choose("tamper_delay_ms", 30) as u64;
-            let wid = w.inject(src, dst, data, delay, tag);
-            s.tampered.insert(wid, tag);
-            w.count("c02_tampered_injected");
+            // the connection the datagram is presented on must be a sealed one as well: between two ends that both
+            // enabled plain, anything from the peer's address is payload by definition
+            let presented_on_plain = match (w.node_by_addr(src), w.node_by_addr(dst)) {
+                (Some(x), Some(y)) if x < n && y < n => plain_pair(w, x, y),
+                _ => false,
+            };
+            if !presented_on_plain {
+                let wid = w.inject(src, dst, data, delay, tag);
+                s.tampered.insert(wid, tag);
+                w.count("c02_tampered_injected");
+            }
         }
         // ---- a datagram sealed by an outsider under a key it can guess (all zero / all ones) for any slot
         if w.ch.chance("forged_with_guessable_key", 250) {
@@ -317,6 +338,7 @@ fn scenario(w: &mut World, ctx: &RunCtx, states: &mut Vec<u64>) -> Result<(), Vi
         }
         r?;
     }
+    w.net.send_fault_pm = 0;
     // ---- a datagram sealed for the previous connection of the same two addresses: the sender crashes and comes back,
     // a new handshake replaces the connection, and a datagram of the old one that the network had held back arrives
     if w.ch.chance("previous_connection", 300) {
@@ -327,7 +349,7 @@ fn scenario(w: &mut World, ctx: &RunCtx, states: &mut Vec<u64>) -> Result<(), Vi
             w.partition(a, b, false);
             counter += 1;
             let mh = mesh::marker(w, counter);
-            let f = mesh::ipv4_packet(mesh::tun_ip(a), mesh::tun_ip(b), &mh);
+            let f = if tap { mesh::eth_frame(mesh::mac(b), mesh::mac(a), &[], &mh) } else { mesh::ipv4_packet(mesh::tun_ip(a), mesh::tun_ip(b), &mh) };
             let first_wire = w.wire.len();
             let at = w.now_ms + 1;
             w.schedule_frame(at, a, f);
@@ -400,7 +422,7 @@ fn scenario(w: &mut World, ctx: &RunCtx, states: &mut Vec<u64>) -> Result<(), Vi
         }
         counter += 1;
         let m = mesh::marker(w, counter);
-        let f = mesh::ipv4_packet(mesh::tun_ip(*a), mesh::tun_ip(*b), &m);
+        let f = if tap { mesh::eth_frame(mesh::mac(*b), mesh::mac(*a), &[], &m) } else { mesh::ipv4_packet(mesh::tun_ip(*a), mesh::tun_ip(*b), &m) };
         finals.push((*a, *b, f.clone()));
         let at = w.now_ms + 1 + finals.len() as u64;
         w.schedule_frame(at, *a, f);
